@@ -25,6 +25,11 @@ void name_object(const void *addr, const std::string &name);
 /// reset allocation ordinals and names (per scenario)
 void reset_names();
 int current_tid();
+/// queue-node naming: objects registered after the first `base` ones are N1, N2, ...; when ptr_mask != 0
+/// the pointer field of every logged value is replaced by the node number
+void set_node_naming(int base, uint64_t ptr_mask);
+/// number of registered (live) node objects
+int live_nodes();
 
 struct Options {
   std::vector<int> schedule;       // explicit prefix of thread choices
